@@ -339,6 +339,14 @@ def link(draw, blocks, label_pool, allow_replace=True, allow_atype_sel=True, pre
         tgt = order_prefix(orders[oi]) + draw(st.sampled_from([a["name"] for a in blk["atoms"]]))
         if isinstance(orders[oi], int) and tgt != src:
             non_edges.append([src, tgt, {}])
+        outside = [o for o in (-1, 1, 2) if o not in orders]
+        zero = [k for k in keys_all if split_order(k) == ""]
+        if outside and zero and orders[0] == 0 and draw(st.booleans()):
+            # the forbidden neighbour may sit in a residue the link does not otherwise touch (the residue before a
+            # chain end, say); the link's residue names restrict which neighbour counts
+            o = draw(st.sampled_from(outside))
+            blk = draw(st.sampled_from(blocks))
+            non_edges.append([draw(st.sampled_from(zero)), order_prefix(o) + draw(st.sampled_from([a["name"] for a in blk["atoms"]])), {}])
     if allow_atype_sel and not atype_replace and draw(st.integers(0, 6)) == 0:
         for _ in range(draw(st.integers(1, 2))):
             pat = []
@@ -914,9 +922,10 @@ def multires_case(draw, mixed_nrexcl=False, bonded_only=False):
             if kind == "n":
                 nodes.append({"resname": blk["name"], "attrs": {}})
             else:
-                resnames = []
+                resnames, seen_resids = [], []
                 for at in blk["atoms"]:
-                    if len(resnames) < at["resid"]:
+                    if at["resid"] not in seen_resids:        # the block may number its residues from any value
+                        seen_resids.append(at["resid"])
                         resnames.append(at["resname"])
                 for rn in resnames:
                     nodes.append({"resname": rn, "attrs": {"from_itp": blk["name"]}})
